@@ -466,41 +466,99 @@ func ruleScoreFlow(c *Ctx) {
 	// (2) ApplyScoreChanges: weight loop strictly before comparison loop
 	pk, fd = c.P.mustFunc("eth2/forkchoice/proto", "ProtoArray.ApplyScoreChanges")
 	info = pk.TypesInfo
+	// the pass that writes weights and the pass that compares children are two different top-level statements of the
+	// function, in that order; either may live in an unexported helper of the package (looked into, two levels)
 	var weightLoop, cmpLoop *ast.ForStmt
-	for _, st := range fd.Body.List {
-		fs, ok := st.(*ast.ForStmt)
-		if !ok {
-			continue
+	var weightAt, cmpAt ast.Stmt
+	helperBody := func(call *ast.CallExpr) *ast.FuncDecl {
+		f := calleeFunc(info, call)
+		if f == nil || f.Pkg() != pk.Types || f.Exported() || f.Name() == "maybeUpdateBestChildAndDescendant" {
+			return nil
 		}
-		hasW, hasC := false, false
-		ast.Inspect(fs.Body, func(n ast.Node) bool {
+		var out *ast.FuncDecl
+		c.P.funcDecls(func(p2 *packages.Package, f2 *ast.FuncDecl) {
+			if p2 == pk && p2.TypesInfo.Defs[f2.Name] == f {
+				out = f2
+			}
+		})
+		return out
+	}
+	var effects func(root ast.Node, depth int) (w, cc *ast.ForStmt, hasW, hasC bool)
+	effects = func(root ast.Node, depth int) (w, cc *ast.ForStmt, hasW, hasC bool) {
+		var loops []*ast.ForStmt
+		var visit func(n ast.Node) bool
+		inner := func() *ast.ForStmt {
+			if len(loops) == 0 {
+				return nil
+			}
+			return loops[0]
+		}
+		visit = func(n ast.Node) bool {
 			switch x := n.(type) {
+			case *ast.ForStmt:
+				loops = append(loops, x)
+				ast.Inspect(x.Body, visit)
+				loops = loops[:len(loops)-1]
+				return false
 			case *ast.AssignStmt:
 				for _, l := range x.Lhs {
 					if sel, ok := ast.Unparen(l).(*ast.SelectorExpr); ok && sel.Sel.Name == "Weight" {
 						hasW = true
+						if w == nil {
+							w = inner()
+						}
 					}
 				}
 			case *ast.CallExpr:
 				if f := calleeFunc(info, x); f != nil && f.Name() == "maybeUpdateBestChildAndDescendant" {
 					hasC = true
+					if cc == nil {
+						cc = inner()
+					}
+				} else if depth < 2 {
+					if hb := helperBody(x); hb != nil && hb.Body != nil {
+						w2, c2, hw, hc := effects(hb.Body, depth+1)
+						if hw {
+							hasW = true
+							if w == nil {
+								w = w2
+								if w == nil {
+									w = inner()
+								}
+							}
+						}
+						if hc {
+							hasC = true
+							if cc == nil {
+								cc = c2
+								if cc == nil {
+									cc = inner()
+								}
+							}
+						}
+					}
 				}
 			}
 			return true
-		})
-		if hasW && weightLoop == nil {
-			weightLoop = fs
 		}
-		if hasC && cmpLoop == nil {
-			cmpLoop = fs
+		ast.Inspect(root, visit)
+		return
+	}
+	for _, st := range fd.Body.List {
+		w, cc, hasW, hasC := effects(st, 0)
+		if hasW && weightAt == nil {
+			weightAt, weightLoop = st, w
+		}
+		if hasC && cmpAt == nil {
+			cmpAt, cmpLoop = st, cc
 		}
 	}
 	switch {
-	case weightLoop == nil || cmpLoop == nil:
-		c.unm("ApplyScoreChanges.two-pass", fd.Pos(), "weight-update loop or best-child loop not found at the top level of the function")
-	case weightLoop == cmpLoop:
+	case weightAt == nil || cmpAt == nil || weightLoop == nil || cmpLoop == nil:
+		c.unm("ApplyScoreChanges.two-pass", fd.Pos(), "weight-update loop or best-child loop not found in the function (or the unexported helpers it calls)")
+	case weightAt == cmpAt:
 		c.bad("ApplyScoreChanges.two-pass", cmpLoop.Pos(), "best-child comparisons run inside the loop that is still writing node weights: a node is compared with siblings whose weight has not received this batch's delta yet, and nothing re-runs the comparison afterwards")
-	case weightLoop.Pos() > cmpLoop.Pos():
+	case weightAt.Pos() > cmpAt.Pos():
 		c.bad("ApplyScoreChanges.two-pass", cmpLoop.Pos(), "best-child comparisons run before the weights are updated")
 	default:
 		c.ok("ApplyScoreChanges.two-pass", cmpLoop.Pos(), "all weights are final before the first best-child comparison")
